@@ -70,6 +70,12 @@ MenuPEA == {<<>>, <<SendEat("ao", 0)>>, <<SendEat("ao", 1), SendEat("ao", 2)>>, 
 MenuPEB == {<<>>, <<SendEat("bo", 0)>>, <<SendEat("bo", 1)>>, <<SendEat("bo", 2), SchedEat(1, 0)>>}
 MenuPE == [m \in {"a", "b", "c"} |-> IF m = "a" THEN MenuPEA ELSE IF m = "b" THEN MenuPEB ELSE {<<>>}]
 StartPE == [m \in {"a", "b", "c"} |-> IF m = "a" THEN {<<SendEat("ao", 0), SchedEat(1, 1)>>, <<SchedEat(0, 2), SendEat("ao", 1)>>} ELSE {<<>>}]
+(* C03 at net level: one handler emits a long burst of messages for two future instants, not in time order *)
+Burst24 == [i \in 1..96 |-> IF i % 3 = 0 THEN Send("ao", 1) ELSE Sched(IF i % 2 = 0 THEN 1 ELSE 2)]
+Burst6 == [i \in 1..6 |-> IF i % 2 = 0 THEN Sched(1) ELSE Send("ao", 1)]
+MenuBurstA == {<<>>, Burst24, Burst6, <<Sched(1), Sched(1), Send("ao", 2)>>}
+MenuBurst == [m \in {"a", "b", "c"} |-> IF m = "a" THEN MenuBurstA ELSE {<<>>, <<Send("bo", 1), Send("bo", 1)>>}]
+StartBurst == [m \in {"a", "b", "c"} |-> IF m = "a" THEN {Burst24, Burst6} ELSE {<<>>}]
 Stack2 == [m \in {"a", "b", "c"} |-> 2]
 Stack012 == [m \in {"a", "b", "c"} |-> IF m = "a" THEN 1 ELSE IF m = "b" THEN 2 ELSE 0]
 Stages212 == [m \in {"a", "b", "c"} |-> IF m = "b" THEN 1 ELSE 2]
